@@ -14,6 +14,9 @@ type TypeProps struct {
 	Fields map[string]string
 	// True if type implements node
 	IsImplementsNode bool
+	// urls of the services whose schema declares the type (a type may be declared
+	// by a service which owns none of its fields, e.g. with its id only)
+	declaredBy map[string]struct{}
 }
 
 // TypeURLMap represents typename:fieldname:url mapping
@@ -58,6 +61,25 @@ func (t TypeURLMap) SetTypeIsImplementsNode(typename string) {
 	}
 
 	t[typename].IsImplementsNode = true
+}
+
+func (t TypeURLMap) setDeclaredBy(typename, url string) {
+	if t[typename].declaredBy == nil {
+		t[typename].declaredBy = make(map[string]struct{})
+	}
+
+	t[typename].declaredBy[url] = struct{}{}
+}
+
+// IsDeclaredBy tells if the schema of the service at url declares the type.
+// ok is false when it's not known which services declare the type
+func (t TypeURLMap) IsDeclaredBy(typename, url string) (res bool, ok bool) {
+	if t[typename] == nil || t[typename].declaredBy == nil {
+		return false, false
+	}
+
+	_, res = t[typename].declaredBy[url]
+	return res, true
 }
 
 func (t TypeURLMap) Get(typename, fieldname string) (res string, ok bool) {
@@ -121,6 +143,10 @@ func (t TypeURLMap) SetFromSchema(schema map[string]*ast.Definition, url string)
 			}
 
 			t.Set(k, f.Name, url)
+		}
+
+		if t[k] != nil {
+			t.setDeclaredBy(k, url)
 		}
 	}
 }
